@@ -49,20 +49,50 @@ def find_loops(events):
 
 
 class Path:
-    __slots__ = ("guards", "events", "exit")
+    __slots__ = ("guards", "events", "exit", "gpos")
 
-    def __init__(self, guards=(), events=(), exit=None):
+    def __init__(self, guards=(), events=(), exit=None, gpos=None):
         self.guards, self.events, self.exit = tuple(guards), tuple(events), exit
+        # gpos[i]: number of events that precede the evaluation of guards[i] on this path
+        self.gpos = tuple(gpos) if gpos is not None else tuple(0 for _ in self.guards)
 
-    def extend(self, guards, events, exit):
-        return Path(self.guards + tuple(guards), self.events + tuple(events), exit)
+    def extend(self, guards, events, exit, gpos=None):
+        n = len(self.events)
+        gp = tuple(gpos) if gpos is not None else tuple(0 for _ in guards)
+        return Path(self.guards + tuple(guards), self.events + tuple(events), exit,
+                    self.gpos + tuple(n + p for p in gp))
 
     def feasible(self):
-        g = set(self.guards)
-        return not any(ir.negate(x) in g for x in g)
+        """A path is infeasible if it assumes a literal and its negation -- unless an object the literal
+        talks about was mutated between the two tests (terms denote values, but `len(self.xs)` after
+        `self.xs.append(..)` is a new value of the same term)."""
+        seen = {}
+        for g, pos in zip(self.guards, self.gpos):
+            n = ir.negate(g)
+            if n in seen:
+                if not _mutated_between(self.events[seen[n]:pos], g):
+                    return False
+            seen.setdefault(g, pos)
+        return True
 
     def __repr__(self):
         return f"<Path {len(self.events)} events, exit={self.exit}>"
+
+
+def _mutated_between(events, lit):
+    """Does any of the events mutate an object mentioned in the literal?"""
+    objs = set(t for t in ir.subterms(lit) if t[0] in ("field0", "new", "param", "res"))
+    for ev in events:
+        tgt = None
+        if isinstance(ev, ir.Call) and ev.method in ir.MUTATORS and ev.recv is not None:
+            tgt = ev.recv
+        elif isinstance(ev, ir.Mut):
+            tgt = ev.recv
+        elif isinstance(ev, (ir.SubStore, ir.Del)):
+            tgt = ev.cont
+        if tgt is not None and root(tgt) in objs:
+            return True
+    return False
 
 
 EXTRA_UNROLL = 0     # thorough tier: re-analyse with deeper loop unrolling as a cross-check
@@ -84,7 +114,7 @@ def paths(events, unroll=2, exc=False, limit=200000, _top=True):
                 new.append(p)
                 continue
             for a in alts:
-                q = p.extend(a.guards, a.events, a.exit)
+                q = p.extend(a.guards, a.events, a.exit, a.gpos)
                 if q.feasible():
                     new.append(q)
         out = new
@@ -95,8 +125,8 @@ def paths(events, unroll=2, exc=False, limit=200000, _top=True):
 
 def _alts(ev, unroll, exc, limit):
     if isinstance(ev, ir.If):
-        a = [Path((ev.cond,)).extend(p.guards, p.events, p.exit) for p in paths(ev.then, unroll, exc, limit, False)]
-        b = [Path((ir.negate(ev.cond),)).extend(p.guards, p.events, p.exit)
+        a = [Path((ev.cond,)).extend(p.guards, p.events, p.exit, p.gpos) for p in paths(ev.then, unroll, exc, limit, False)]
+        b = [Path((ir.negate(ev.cond),)).extend(p.guards, p.events, p.exit, p.gpos)
              for p in paths(ev.orelse, unroll, exc, limit, False)]
         return [p for p in a + b if p.feasible()]
     if isinstance(ev, ir.Loop):
@@ -112,11 +142,11 @@ def _alts(ev, unroll, exc, limit):
                 broke = False
                 for part in combo:
                     if p.exit is None and not broke:
-                        p = p.extend(part.guards, part.events, part.exit)
+                        p = p.extend(part.guards, part.events, part.exit, part.gpos)
                         if p.exit == "continue":
-                            p = Path(p.guards, p.events, None)
+                            p = Path(p.guards, p.events, None, p.gpos)
                         elif p.exit == "break":
-                            p = Path(p.guards, p.events, None)
+                            p = Path(p.guards, p.events, None, p.gpos)
                             broke = True
                 alts.append(p)
                 if len(alts) > limit:
@@ -126,7 +156,7 @@ def _alts(ev, unroll, exc, limit):
         res = []
         for p in paths(ev.body, unroll, exc, limit, False):
             # a return of the callee ends the callee, not the caller
-            res.append(Path(p.guards, p.events, None if p.exit == "return" else p.exit))
+            res.append(Path(p.guards, p.events, None if p.exit == "return" else p.exit, p.gpos))
         return res
     if isinstance(ev, ir.With):
         return paths(ev.body, unroll, exc, limit, False)
@@ -143,8 +173,10 @@ def _alts(ev, unroll, exc, limit):
                     seen.add(key)
                     for h in ev.handlers:
                         for hp in paths(h.body, unroll, exc, limit, False):
-                            alts.append(Path(bp.guards, bp.events[:i] + (Raised(e, getattr(e, "line", 0)),), None)
-                                        .extend((("handler", h.exc),) + hp.guards, hp.events, hp.exit))
+                            head = Path(bp.guards, bp.events[:i] + (Raised(e, getattr(e, "line", 0)),), None,
+                                        tuple(min(g, i) for g in bp.gpos))
+                            alts.append(head.extend((("handler", h.exc),) + hp.guards, hp.events, hp.exit,
+                                                    (0,) + tuple(hp.gpos)))
         return alts
     if isinstance(ev, ir.Return):
         return [Path((), (ev,), "return")]
